@@ -936,8 +936,20 @@ package consensus
 // overflow are established by the overflow pre-check that runs first; that step is NOT proved
 // here (the pre-checks have no functional contract yet): those call-site obligations are
 // reported as undecided.
+// v1 Foundation update (C03): from the Foundation hardfork on, a transaction whose arbitrary data
+// carries an update is accepted only if some siacoin input is controlled by the current subsidy or
+// management address and a signature for that input covers the whole transaction.
+//@ spec fuSigned(ms MidState, txn types.Transaction) bool = exists i in 0..len(txn.SiacoinInputs) :: (txn.SiacoinInputs[i].UnlockConditions.UnlockHash() == ms.base.FoundationSubsidyAddress || txn.SiacoinInputs[i].UnlockConditions.UnlockHash() == ms.base.FoundationManagementAddress) && (exists j in 0..len(txn.Signatures) :: txn.Signatures[j].ParentID == txn.SiacoinInputs[i].ParentID && txn.Signatures[j].CoveredFields.WholeTransaction)
+//@ spec fuPrefix(arb []byte) bool = len(arb) >= 16 && forall j in 0..16 :: arb[j] == types.SpecifierFoundation[j]
 //@ func validateArbitraryData
 //@   abstract
+//@   prop C03 C10
+//@   requires ms.base.Network != nil
+//@   ghost k int
+//@   invariant loop#1 @updates-signed 0 <= k && k < $n && fuPrefix(txn.ArbitraryData[k]) ==> fuSigned(*ms, txn)
+//@   invariant loop#2 @signed-by-input signed ==> fuSigned(*ms, txn)
+//@   invariant loop#3 @signed-by-input signed ==> fuSigned(*ms, txn)
+//@   ensures @FU1-authorized result == nil && cheight(ms.base) >= ms.base.Network.HardforkFoundation.Height && 0 <= k && k < len(txn.ArbitraryData) && fuPrefix(txn.ArbitraryData[k]) ==> fuSigned(*ms, txn)
 
 //@ func (State).V2TransactionWeight
 //@   abstract
